@@ -64,6 +64,7 @@ static void add_matrix(Output &o, const std::string &name, const amgcl::backend:
 struct World {
     int comp; gen::Csr A, B; std::vector<double> x, y, z; long sub; long k; int sort; int fam;
     long coarsening, relax, solver, coarse_enough, npre, ncycle, power_iters, maxiter, nullspace;
+    const hz::Plan *vary = 0;
 };
 
 typedef amgcl::make_solver<
@@ -215,6 +216,7 @@ static Output run_component(const World &w) {
         p.put("solver.maxiter", w.maxiter);
         if (w.power_iters > 0 && w.coarsening == 2) { p.put("precond.coarsening.estimate_spectral_radius", true); p.put("precond.coarsening.power_iters", w.power_iters); }
         if (w.power_iters > 0 && w.relax == 8) p.put("precond.relax.power_iters", w.power_iters);
+        if (w.vary) apply_vary_params(*w.vary, p, "precond.coarsening.", coarsening_names[w.coarsening], "precond.relax.", relax_names[w.relax], "solver.", solver_names[w.solver], false);
         gen::Csr A = w.A;
         RtSolver S(A.tie(), p);
         std::vector<double> f = w.y, u(n, 0.0);
@@ -321,6 +323,7 @@ Plan generate(uint64_t seed, uint64_t run, bool thorough) {
     p.set("nullspace", ((comp == C_HIER && r.chance(0.4)) || comp == C_TENTATIVE) ? r.range(1, 4) : 0, 0);
     p.set("cross_switch", r.chance(0.05) ? 1 : 0, 0);      // occasionally compare across the 16/17 SpGEMM switch
     draw_schedule(r, p.sched, (int)p.get("nt"));
+    draw_vary_params(r, p, 0.4);
     p.sched.max_decisions = 2000000000ULL;      // long non-converging solves at 32 threads are legitimate; the wall-clock watchdog bounds them
 #ifdef AMGSIM_TRACE
     // trace flavour: every instrumented access inside a parallel region is a possible preemption point
@@ -443,7 +446,7 @@ static void compare(Result &res, const World &w, const Output &a, const Output &
 
 Result execute(const Plan &p) {
     Result res;
-    World w = make_world(p);
+    World w = make_world(p); w.vary = &p;
     int nt = (int)p.get("nt");
     int nt_ref = 1;
     bool cross = p.get("cross_switch") != 0;
